@@ -1,6 +1,7 @@
 package main
 
 import (
+	"encoding/json"
 	"errors"
 	"fmt"
 	"net"
@@ -11,6 +12,7 @@ import (
 
 	"github.com/my-cloud/ruthenium/validatornode/application"
 	"github.com/my-cloud/ruthenium/validatornode/application/network"
+	"github.com/my-cloud/ruthenium/validatornode/infrastructure/configuration"
 	"github.com/my-cloud/ruthenium/validatornode/infrastructure/p2p"
 )
 
@@ -100,7 +102,7 @@ func runNetSuite(seed uint64, n int, out *Out, stats *Stats) {
 			pool = append(pool, fmt.Sprintf("10.0.0.%d:%s", k, hostPort))
 		}
 		pool = append(pool, host, "10.0.0.50:10699", "10.0.0.51:80", "10.0.0.52:10600", "10.0.0.53:10610",
-			"no-port", "[::1]:"+hostPort, "seed.example.org:"+hostPort, "alias.example.org:"+hostPort, "self.example.org:"+hostPort, ":"+hostPort, "10.0.0.9:106ab")
+			"10.0.0.54:1060", "10.0.0.55:106", "10.0.0.56:106000", "no-port", "[::1]:"+hostPort, "seed.example.org:"+hostPort, "alias.example.org:"+hostPort, "self.example.org:"+hostPort, ":"+hostPort, "10.0.0.9:106ab")
 		aliasing := r.Chance(1, 6)
 		creator := &scriptCreator{resolve: map[string]string{}}
 		splitTab := map[string][2]string{}
@@ -154,7 +156,26 @@ func runNetSuite(seed uint64, n int, out *Out, stats *Stats) {
 				seedSx = append(seedSx, sx(atom(tv), fmt.Sprint(sc)))
 			}
 		}
-		nb := network.NewNeighborhood(creator, hostIp, hostPort, max, seeds, &ScriptWatch{fallback: func() int64 { return time.Now().UnixNano() }})
+		// the bound and the seeds reach the neighborhood as main.go hands them over: decoded by the
+		// repository's NetworkSettings from a settings document
+		var seedList []string
+		for tv := range seeds {
+			seedList = append(seedList, tv)
+		}
+		sort.Strings(seedList)
+		var netSet configuration.NetworkSettings
+		if err := json.Unmarshal(mustJSON(map[string]interface{}{"connectionTimeoutInSeconds": 3, "maxOutboundsCount": max, "seeds": seedList, "synchronizationIntervalInSeconds": 6}), &netSet); err != nil {
+			panic(err)
+		}
+		if !seedOnly {
+			// (seed scores other than 0 exist only in the seed-only cases, which keep their scripted map)
+			decoded := map[string]int{}
+			for _, tv := range netSet.Seeds() {
+				decoded[tv] = 0
+			}
+			seeds = decoded
+		}
+		nb := network.NewNeighborhood(creator, hostIp, hostPort, netSet.MaxOutboundsCount(), seeds, &ScriptWatch{fallback: func() int64 { return time.Now().UnixNano() }})
 		// independent bookkeeping of what the node should know (for the monitors)
 		known := map[string]int{}
 		var ops []string
